@@ -87,6 +87,8 @@ namespace thr
         std::unordered_map<void *, CondModel> cond;
         std::unordered_map<void *, SemModel> sem;
         std::unordered_map<uintptr_t, Cell> shadow;
+        std::unordered_map<uintptr_t, std::pair<int, VC>> atom; // atomic objects: id (first-use order) and their clock
+        int next_aid = 0;
         int next_mid = 0, next_cid = 0, next_sid = 0;
         int main_baton = 0;
         bool aborting = false;
@@ -731,6 +733,22 @@ namespace thr
     }
 }
 
+namespace thr
+{
+    // every atomic operation of instrumented code is a scheduling point and (conservatively) a sequentially consistent
+    // synchronisation: it joins the thread's clock with the object's clock both ways, so atomics never cause a false race
+    static void atomic_sync(const volatile void *a, const char *what)
+    {
+        SimThread *t = me;
+        if (!t || !S || S->aborting) return;
+        auto it = S->atom.find((uintptr_t)a);
+        if (it == S->atom.end()) it = S->atom.emplace((uintptr_t)a, std::make_pair(S->next_aid++, VC())).first;
+        t->vc.join(it->second.second);
+        it->second.second.join(t->vc);
+        yield_point(what, 'a', it->second.first);
+    }
+}
+
 using namespace thr;
 
 // ---------------------------------------------------------------------- interposed libc symbols
@@ -842,6 +860,38 @@ extern "C"
     void __tsan_write_range(void *p, unsigned long n) { access((uintptr_t)p, n, true, PC); }
     void __tsan_vptr_update(void **p, void *) { access((uintptr_t)p, 8, true, PC); }
     void __tsan_vptr_read(void **p) { access((uintptr_t)p, 8, false, PC); }
+#define TSAN_ATOMIC(N, T)                                                                                        \
+    T __tsan_atomic##N##_load(const volatile T *a, int) { atomic_sync(a, "atomic-load"); return __atomic_load_n(a, __ATOMIC_SEQ_CST); } \
+    void __tsan_atomic##N##_store(volatile T *a, T v, int) { atomic_sync(a, "atomic-store"); __atomic_store_n(a, v, __ATOMIC_SEQ_CST); } \
+    T __tsan_atomic##N##_exchange(volatile T *a, T v, int) { atomic_sync(a, "atomic-xchg"); return __atomic_exchange_n(a, v, __ATOMIC_SEQ_CST); } \
+    T __tsan_atomic##N##_fetch_add(volatile T *a, T v, int) { atomic_sync(a, "atomic-rmw"); return __atomic_fetch_add(a, v, __ATOMIC_SEQ_CST); } \
+    T __tsan_atomic##N##_fetch_sub(volatile T *a, T v, int) { atomic_sync(a, "atomic-rmw"); return __atomic_fetch_sub(a, v, __ATOMIC_SEQ_CST); } \
+    T __tsan_atomic##N##_fetch_and(volatile T *a, T v, int) { atomic_sync(a, "atomic-rmw"); return __atomic_fetch_and(a, v, __ATOMIC_SEQ_CST); } \
+    T __tsan_atomic##N##_fetch_or(volatile T *a, T v, int) { atomic_sync(a, "atomic-rmw"); return __atomic_fetch_or(a, v, __ATOMIC_SEQ_CST); } \
+    T __tsan_atomic##N##_fetch_xor(volatile T *a, T v, int) { atomic_sync(a, "atomic-rmw"); return __atomic_fetch_xor(a, v, __ATOMIC_SEQ_CST); } \
+    T __tsan_atomic##N##_fetch_nand(volatile T *a, T v, int) { atomic_sync(a, "atomic-rmw"); return __atomic_fetch_nand(a, v, __ATOMIC_SEQ_CST); } \
+    int __tsan_atomic##N##_compare_exchange_strong(volatile T *a, T *c, T v, int, int)                                \
+    {                                                                                                            \
+        atomic_sync(a, "atomic-cas");                                                                            \
+        return __atomic_compare_exchange_n(a, c, v, 0, __ATOMIC_SEQ_CST, __ATOMIC_SEQ_CST);                      \
+    }                                                                                                            \
+    int __tsan_atomic##N##_compare_exchange_weak(volatile T *a, T *c, T v, int, int)                                  \
+    {                                                                                                            \
+        atomic_sync(a, "atomic-cas");                                                                            \
+        return __atomic_compare_exchange_n(a, c, v, 0, __ATOMIC_SEQ_CST, __ATOMIC_SEQ_CST);                      \
+    }                                                                                                            \
+    T __tsan_atomic##N##_compare_exchange_val(volatile T *a, T c, T v, int, int)                                      \
+    {                                                                                                            \
+        atomic_sync(a, "atomic-cas");                                                                            \
+        __atomic_compare_exchange_n(a, &c, v, 0, __ATOMIC_SEQ_CST, __ATOMIC_SEQ_CST);                            \
+        return c;                                                                                                \
+    }
+    TSAN_ATOMIC(8, uint8_t)
+    TSAN_ATOMIC(16, uint16_t)
+    TSAN_ATOMIC(32, uint32_t)
+    TSAN_ATOMIC(64, uint64_t)
+    void __tsan_atomic_thread_fence(int) { static int fence; atomic_sync(&fence, "atomic-fence"); }
+    void __tsan_atomic_signal_fence(int) {}
     void __tsan_func_entry(void *) {}
     void __tsan_func_exit() {}
     void __tsan_ignore_thread_begin() {}
